@@ -73,9 +73,12 @@ def judge_query(rl, sql, order):
         from c05 import err_class
         sig = "optimized-fails:" + (pan or err_class(opt.get("err", "")))
         if sig.endswith("column-not-found-from-input"):
-            from c17 import has_subquery
-            if has_subquery(sql):
-                sig += ":unnested-subquery"   # (the unoptimized side ran, so the subquery form itself is supported)
+            from c17 import unresolved_class
+            try:
+                pc = rl.cmd({"op": "plancheck", "sql": sql}, timeout=60)
+                sig += "@" + unresolved_class(pc.get("unresolved") or [])
+            except Exception:
+                sig += "@unlocated"
         return dict(signature=sig, what=f"{sql[:200]}: unoptimized ok ({len(ref['rows'])} rows), optimized: {opt.get('err', '')[:80]} {opt.get('panics')}", sql=sql), 0, 0, opt
     if not compare(opt["rows"], ref["rows"], order):
         fired = (opt.get("raw", {}).get("rules") or {})
